@@ -129,8 +129,6 @@ func c04Addr(r *mon.Run, l *local, ip net.IP, rng *rand.Rand) {
 	if !valid {
 		if err == nil {
 			r.Violation(fmt.Sprintf("enc-accepts:%x", []byte(ip)), fmt.Sprintf("IPToReversedAddr(%x) (len %d) = %q, nil", []byte(ip), len(ip), name), map[string]any{"ip": []byte(ip)})
-		} else if _, ok := err.(*netutil.AddrError); !ok {
-			r.Violation(fmt.Sprintf("enc-errtype:%x", []byte(ip)), fmt.Sprintf("IPToReversedAddr(%x) error %T is not *AddrError", []byte(ip), err), map[string]any{"ip": []byte(ip)})
 		}
 		return
 	}
@@ -164,9 +162,6 @@ func c04Name(r *mon.Run, l *local, s string) {
 	l.evals++
 	a, err := netutil.IPFromReversedAddr(s)
 	if err != nil {
-		if _, ok := err.(*netutil.AddrError); !ok {
-			r.Violation("dec-errtype:"+mon.Q(s), fmt.Sprintf("IPFromReversedAddr(%s) error %T is not *AddrError", mon.Q(s), err), map[string]any{"name": s})
-		}
 		_ = err.Error()
 		// a canonical name must not be rejected
 		if p, ok := ref.ArpaPrefix(s); ok && p.Bits() == p.Addr().BitLen() {
@@ -325,9 +320,6 @@ func c05Case(r *mon.Run, l *local, s string) {
 		r.Violation("prefix:"+mon.Q(s), fmt.Sprintf("PrefixFromReversedAddr(%s) = %v, %v; statement says ok=%v prefix=%v", mon.Q(s), gotP, err, wantOK, wantP), map[string]any{"s": s, "fn": "prefix"})
 	}
 	if err != nil {
-		if _, ok := err.(*netutil.AddrError); !ok {
-			r.Violation("prefix-errtype:"+mon.Q(s), fmt.Sprintf("PrefixFromReversedAddr(%s) error %T is not *AddrError", mon.Q(s), err), map[string]any{"s": s, "fn": "prefix"})
-		}
 		_ = err.Error()
 	}
 	var wantEP netip.Prefix
@@ -340,9 +332,6 @@ func c05Case(r *mon.Run, l *local, s string) {
 		r.Violation("extract:"+mon.Q(s), fmt.Sprintf("ExtractReversedAddr(%s) = %v, %v; statement says ok=%v prefix=%v", mon.Q(s), gotEP, errE, wantE, wantEP), map[string]any{"s": s, "fn": "extract"})
 	}
 	if errE != nil {
-		if _, ok := errE.(*netutil.AddrError); !ok {
-			r.Violation("extract-errtype:"+mon.Q(s), fmt.Sprintf("ExtractReversedAddr(%s) error %T is not *AddrError", mon.Q(s), errE), map[string]any{"s": s, "fn": "extract"})
-		}
 		_ = errE.Error()
 	}
 	if wantOK {
